@@ -477,30 +477,40 @@ impl Cfg {
         }
     }
 
-    /// Returns what is known about the condition that decides along which edge
+    /// Returns what is known about the conditions that decide along which edge
     /// the given basic block is entered, and hence which of the definitions
-    /// merged by its phi expressions is taken: for a loop header (a block with
-    /// a predecessor that does not come before it) this is the loop condition,
-    /// otherwise it is the condition of the if-statement which ends the
-    /// immediate dominator of the block.
+    /// merged by its phi expressions is taken. These are the conditions of the
+    /// if-statements and loops which end a block between the immediate
+    /// dominator of the block and one of its predecessors: the blocks on the
+    /// dominator-tree paths from each predecessor up to (and including) the
+    /// immediate dominator. (For a loop header the path from the end of the
+    /// loop body leads through the header itself, so the loop condition is
+    /// among them.)
     fn merge_control(&self, index: Index) -> MergeControl {
         let basic_block = &self.basic_blocks[index];
         if basic_block.predecessors().len() < 2 {
             return MergeControl::Constant;
         }
-        let deciding_block = if basic_block.predecessors().iter().any(|pred| *pred >= index) {
-            Some(basic_block)
-        } else {
-            self.get_immediate_dominator(basic_block)
-        };
-        match deciding_block.and_then(|basic_block| basic_block.iter().last()) {
-            Some(Statement::IfThenElse { cond, .. }) => match cond.degree() {
-                Some(range) if range.is_constant() => MergeControl::Constant,
-                Some(_) => MergeControl::NonConstant,
-                None => MergeControl::Unknown,
-            },
-            _ => MergeControl::Unknown,
+        let dominator = self.get_immediate_dominator(basic_block).map(|block| block.index());
+        let mut result = MergeControl::Constant;
+        for predecessor in basic_block.predecessors() {
+            let mut current = Some(*predecessor);
+            while let Some(current_index) = current {
+                let current_block = &self.basic_blocks[current_index];
+                if let Some(Statement::IfThenElse { cond, .. }) = current_block.iter().last() {
+                    match cond.degree() {
+                        Some(range) if range.is_constant() => {}
+                        Some(_) => return MergeControl::NonConstant,
+                        None => result = MergeControl::Unknown,
+                    }
+                }
+                if current == dominator {
+                    break;
+                }
+                current = self.get_immediate_dominator(current_block).map(|block| block.index());
+            }
         }
+        result
     }
 
     /// Propagate expression degrees along the CFG.
